@@ -176,7 +176,7 @@ Lemma value_rule_paren_lit : forall l,
 Proof. intro l. vm_compute. reflexivity. Qed.
 Lemma value_rule_paren_neg_lit : forall l,
   first_match rules (value_in (TGroup DParen [TPunct c_minus; TLit l]))
-  = Some (BValOther, [(Vv, BTT (TGroup DParen [TPunct c_minus; TLit l]))]).
+  = Some (BValNeg, [(Vv, BTT (TLit l))]).
 Proof. intro l. vm_compute. reflexivity. Qed.
 
 (* the six spellings of the special floats *)
